@@ -882,6 +882,25 @@ type zcase struct {
 	Pre    int   `json:"pre"` // model length of the connection preface (Framing.tla Preface), 0 = none
 	Pauses []int `json:"pauses"` // model offsets (bytes sent) at which the read deadline expires
 	Tmo    int   `json:"tmo"`    // 1: case of the transport/timeout model: played over every transport
+	Prior  int   `json:"prior"`  // size class of a message delivered and consumed before the schedule starts
+}
+
+// priorShape: the message that makes the connection's read buffer grow before the schedule starts:
+// class 1 = larger than the default read buffer (128 bytes), class 2 = several times larger.
+func priorShape(class int) int {
+	if class >= 2 {
+		return 3
+	}
+	return 2
+}
+
+// caseShapes: message shapes of a case, the prior message first when the case has one.
+func caseShapes(z zcase, variant int) []int {
+	sh := shapesFor(z.Frames, variant)
+	if z.Prior > 0 {
+		sh = append([]int{priorShape(z.Prior)}, sh...)
+	}
+	return sh
 }
 
 // prefaceLen is the length of the fixed connection preface a client of this protocol sends first.
@@ -908,6 +927,12 @@ func concreteCuts(r *run, z zcase) []int {
 	// model offset -> concrete offset
 	m2c := map[int]int{0: 0}
 	mo, co := 0, 0
+	base := 0
+	if z.Prior > 0 { // the prior message is delivered in one piece; the schedule applies to what follows
+		base = 1
+		co = len(r.msgs[0].b)
+		m2c[0] = co
+	}
 	pl := 0
 	if z.Pre > 0 {
 		// the preface's model bytes: first byte | middle | last byte - 1 | last byte
@@ -919,7 +944,7 @@ func concreteCuts(r *run, z zcase) []int {
 		mo = z.Pre
 	}
 	for k, f := range z.Frames {
-		ze := zoneEnds(r.msgs[k], f)
+		ze := zoneEnds(r.msgs[k+base], f)
 		if k == 0 && pl > 0 {
 			ze[0] = pl + 1 // "first byte" of the first message is the first byte behind the preface
 		}
@@ -927,9 +952,12 @@ func concreteCuts(r *run, z zcase) []int {
 			m2c[mo+zi] = co + ze[zi-1]
 		}
 		mo += f
-		co += len(r.msgs[k].b)
+		co += len(r.msgs[k+base].b)
 	}
 	out := []int{}
+	if base > 0 {
+		out = append(out, len(r.msgs[0].b))
+	}
 	for _, c := range z.Cuts {
 		out = append(out, m2c[c])
 	}
@@ -1045,7 +1073,7 @@ func main() {
 							continue // cases with a connection preface are for the protocols that have one
 						}
 						sp := v
-						sp.Shapes = shapesFor(z.Frames, ci)
+						sp.Shapes = caseShapes(z, ci)
 						r, ok := withRef(sp)
 						if !ok {
 							if hung {
@@ -1060,6 +1088,9 @@ func main() {
 						if z.Tmo > 0 { // the same schedule under every transport
 							transports = []string{"plain", "inspector", "tls"}
 							cls = "timeouts"
+							if z.Prior > 0 {
+								cls = "timeouts-grown-buffer"
+							}
 						}
 						for _, tp := range transports {
 							for _, mode := range []string{"fixed", "auto"} { // the same cut set for both configurations
@@ -1135,6 +1166,18 @@ func main() {
 						}
 						for _, mode := range []string{"fixed", "auto", "list"} {
 							if r.play("random", cuts, mode) && hung {
+								return
+							}
+						}
+					}
+					// a cut followed by an expired read deadline, at every third offset of the stream: by then earlier
+					// messages have made the read buffer grow, and the head of an incomplete message sits in it
+					for c := 1 + int(vh.Seed())%3; c < n; c += 3 {
+						for _, tp := range []string{"plain", "inspector", "tls"} {
+							if c == 1 && tp == "inspector" {
+								continue // covered by the timeout schedules
+							}
+							if r.playT("cut-pause", []int{c, n}, []int{c}, []string{"fixed", "auto"}[(c/3)%2], tp) && hung {
 								return
 							}
 						}
